@@ -20,7 +20,10 @@ def names(tier):
             if s[0] in "9." or s.endswith("."):
                 continue      # a guard cannot start with a digit; hidden / dot-terminated names are not headers
             out.append(s + ".h")
-    return out + REALISTIC
+    # long names: the guard is as long as a line allows (`# define ` + 71 characters = 80 columns), around and past
+    # the 31 / 63 "significant characters" of old compilers
+    long_names = ["n" * k + ".h" for k in (29, 30, 61, 62, 68)]
+    return out + REALISTIC + long_names
 
 
 def guard(name):
